@@ -16,8 +16,8 @@ CLAIMED = {
               "light-quark column identically in L and the L, L^2 coefficients of the gluon column exactly (its L-independent term within 1e-5, a ground numerical evaluation), both mass schemes; "
               "(2) A_qq,ns(1) = 0 at both orders; (3) RG structure of the L dependence derived from f^(nf+1) = A f^(nf): dA1/dL = gamma0_emb(nf) - gamma0(nf+1) on all nine entries for symbolic N "
               "(unpolarised; polarised on the gluon and light-quark columns; non-singlet matrix), and the O(a_s^2) double logs [L^2]A2 = 1/2 (A1' gamma0_emb - gamma0' A1' + beta0' A1' - 4/3 T_R gamma0_emb) "
-              "on the gluon and light-quark columns, nf = 3, 4, 5; the O(a_s^3) triple logs through the dispatcher at 6 sample moments to 1e-12 (the code's coefficients are 16-digit decimals)."),
-        note=COMMON_NOTE + "Not claimed: the lower logs and sum rules at O(a_s^3) (parametrised, removable singularities at N = 2), the single logs at O(a_s^2), the time-like RG structure.",
+              "and the single logs [L]A2 = gamma1_emb(nf) - gamma1(nf+1) (NLO anomalous dimensions) on the gluon and light-quark columns, the non-singlet A_qq,ns^(2) logs, nf = 3, 4, 5 -- i.e. the complete L dependence of the O(a_s^2) matching on those columns; the O(a_s^3) triple logs through the dispatcher at 6 sample moments to 1e-12 (the code's coefficients are 16-digit decimals)."),
+        note=COMMON_NOTE + "Not claimed: the lower logs and sum rules at O(a_s^3) (parametrised, removable singularities at N = 2), the intrinsic heavy-quark column beyond O(a_s) (no O(a_s^2) intrinsic matching implemented), the time-like RG structure.",
         technique="contract-based deductive verification: symbolic execution over the polygamma contract + exact normal form; RG equations as specification",
         design_ref="DESIGN.md section 2, C29",
     ),
